@@ -74,6 +74,18 @@ def needed_text(cpp_text: str, names: list) -> str:
 		keep.add(n)
 		keep.add(n + '_h')
 	out = []
+	# the classes a function uses are named after it (<Name>K, <Name>L ...): emitted ahead of the functions
+	lines = cpp_text.split('\n')
+	i = 0
+	while i < len(lines):
+		m = fronts.CLASS_HEAD.match(lines[i])
+		if m and any(m.group(1).lower().startswith(n.lower()) for n in names):
+			j = i
+			while j < len(lines) and lines[j] != '};':
+				j += 1
+			out.extend(lines[i:j + 1])
+			i = j
+		i += 1
 	for fn in _all_function_names(cpp_text):
 		if fn in keep:
 			out.extend(_function_text(cpp_text, fn))
@@ -122,7 +134,7 @@ def run_cpp(cpp_text: str, calls: list) -> list:
 	exe = os.path.join(d, f'm{os.getpid()}.out')
 	with open(src, 'w') as f:
 		f.write('\n'.join(main))
-	c = subprocess.run(['g++', '-std=c++20', '-O0', '-w', '-D_GLIBCXX_ASSERTIONS', '-o', exe, src], capture_output=True, text=True)
+	c = subprocess.run(['g++', '-std=c++20', '-O0', '-w', '-D_GLIBCXX_ASSERTIONS', '-ftrivial-auto-var-init=pattern', '-o', exe, src], capture_output=True, text=True)
 	if c.returncode != 0:
 		return [f'COMPILE-ERROR: {c.stderr[-300:]}'] * len(calls)
 	out = []
@@ -186,15 +198,17 @@ def handle(entries: list) -> dict:
 			continue
 		text = cpp_text if cpp_text is not None else emitted[name]
 		try:
+			cc = fronts.cpp_classes(text)  # first: the statement parser needs the class names
 			cf = fronts.cpp_functions(text)
 			pf = fronts.py_functions(src if cpp_text is None else module_src)
+			pc = fronts.py_classes(src if cpp_text is None else module_src)
 			if name not in cf:
 				raise sem.Unsupported('function not found in the emitted text')
 			rec['cpp'] = '\n'.join(l for l in _function_text(text, name))
 			params = pf[name][0]
 			inputs, cons = inputs_for(params)
 			prem = sem.Premises()
-			mp, mc = sem.Machine(pf, 'py', prem, UNROLL), sem.Machine(cf, 'cpp', None, UNROLL)
+			mp, mc = sem.Machine(pf, 'py', prem, UNROLL, pc), sem.Machine(cf, 'cpp', None, UNROLL, cc)
 			rp, vp = mp.run(name, inputs)
 			rc, vc = mc.run(name, inputs)
 			class_conds: dict = {}
